@@ -27,3 +27,6 @@ CHECKERS, ORACLES = _relational.make(R.check_invariance, self_inputs=False)
 _xc, _xo = _relational.extra(PID)
 CHECKERS.update(_xc)
 ORACLES.update(_xo)
+RULE += ("; segment / hierarchy annotations are also drawn NON-contiguous (an interior gap - frames without any label - "
+         "or an overlap; still valid for validate_structure), and label renamings include ones that reverse the sort "
+         "order of the labels")
